@@ -1,4 +1,21 @@
 TEXTS = {
+    "C19": {
+        "text": "Machine-checked Lean 4 theorems C19_holds / C19_no_bypass over Model/Types.lean: if every public "
+                "entry point carries the trait bounds listed in `required`, then for ALL profiles of actor and message "
+                "types every use the (modelled) compiler accepts is legitimate - a handler exists, fire-and-forget "
+                "paths (send, Sender, WeakSender, timers, children, broker topics) carry unit responses, restart "
+                "needs RestartableActor, with_stream only exists on the non-restartable builder state and needs a "
+                "StreamHandler, recreate_from_default needs Default - and type-erased / weak handles can only be "
+                "produced through entry points carrying those bounds. The bounds of the 21 entry points are "
+                "re-extracted from generics, where-clauses and impl headers on every run and the instance lemma "
+                "re-proved by `decide`. Correspondence: a catalogue of 53 minimal client programs (each ill-typed one "
+                "paired with a well-typed twin) is compiled against /repo; rustc's verdict must equal the model's "
+                "`accepts` on every program, every ill-typed program must be rejected.",
+        "design_ref": "DESIGN.md §5 C19",
+        "note": "Trusted: Lean kernel + axioms propext/Quot.sound; the abstraction of rustc's trait solving to bound "
+                "shapes; translator's reading of signatures; the USE line of each catalogue program.",
+        "technique": "Lean 4 proof (bounds table implies rule set, for all type profiles) + regenerated bounds + rustc correspondence on a catalogue",
+    },
     "C18": {
         "text": "Machine-checked Lean 4 theorem C18_holds over Model/Spawn.lean: if no spawn entry point drops the "
                 "task handle and dropping hannibal's ActorHandle detaches, then for every entry point, every runtime "
@@ -94,5 +111,5 @@ _PENDING = "check under construction in this round: model + theorem not yet wire
 NOT_APPLICABLE = [
     {"property_id": p, "reason": _PENDING}
     for p in ["C01", "C02", "C04", "C05", "C06", "C08", "C09", "C10", "C11", "C13",
-              "C16", "C17", "C19"]
+              "C16", "C17"]
 ]
